@@ -24,6 +24,7 @@ static int matrix_mode;		/* >0: guard-matrix case number */
 static int expect_refused;	/* matrix: the write must be refused */
 static const char *matrix_cmd;	/* matrix: the command to issue */
 static const char *world_action;	/* matrix: what the outside world does between read and write */
+static const char *matrix_pre;		/* matrix: a command issued (and allowed) between the world's action and the command under test */
 static int learn_fd = -1;	/* >= 0: only log the call sequence of the command and dump it there */
 
 struct site { int kind, nth; long req; };
@@ -121,7 +122,29 @@ static void nx_choice(void)
 			vfs_tick(5);
 		}
 		nvx_plan_arm();
+		if (matrix_pre && matrix_pre[0]) {
+			snprintf(cmd, sizeof(cmd), "%s\n", matrix_pre);
+			nvx_feed(cmd, -1);
+			phase = 10;
+			return;
+		}
 		snprintf(cmd, sizeof(cmd), "%s\n", matrix_cmd ? matrix_cmd : cmds[c_cmd]);
+		nvx_feed(cmd, -1);
+		phase = 1;
+		return;
+	}
+	case 10: {
+		/* the intermediate command (a write to another path) came back: it must have succeeded and must
+		 * not have touched the protected file; now the command under test */
+		char cmd[64];
+		struct vfile *f = vfs_find(target);
+		if (!(strstr(out, "[w]") && !strstr(out, "failed")))
+			fail("c03-guard", "the intermediate command %s did not succeed (output \"%s\")", matrix_pre, nv_esc(out, -1));
+		if (!target_is(pre_target) || (f && f->exists && f->mtime != pre_target_mtime))
+			fail("c03-guard", "the intermediate command %s modified the protected file", matrix_pre);
+		nvx_exout_reset();
+		vfs_tick(5);
+		snprintf(cmd, sizeof(cmd), "%s\n", matrix_cmd);
 		nvx_feed(cmd, -1);
 		phase = 1;
 		return;
@@ -418,7 +441,7 @@ int main(int argc, char **argv)
 		}
 	/* ---- guard matrix: target existence x identity x modification time, no faults ------------------------- */
 	{
-		static const struct { const char *desc, *cmd; int refused; const char *world; } mx[] = {
+		static const struct { const char *desc, *cmd; int refused; const char *world; const char *pre; } mx[] = {
 			{"edited file exists, same mtime", "w", 0, "none"},
 			{"edited file rewritten after it was read (newer mtime)", "w", 1, "change"},
 			{"edited file rewritten after it was read (newer mtime), forced", "w!", 0, "change"},
@@ -433,6 +456,14 @@ int main(int argc, char **argv)
 			{"edited file rewritten (newer), x", "x", 1, "change"},
 			{"foreign exists, wq g", "wq g", 1, "none"},
 			{"edited file rewritten (newer), wq!", "wq!", 0, "change"},
+			/* the guard must survive an allowed write to another path in between */
+			{"edited file rewritten after it was read (newer mtime), after w h", "w", 1, "change", "w h"},
+			{"edited file rewritten after it was read (newer mtime), after w! h", "w", 1, "change", "w! h"},
+			{"edited file rewritten after it was read (newer mtime), after 1,1w h", "w", 1, "change", "1,1w h"},
+			{"new file that appeared meanwhile, after w h", "w", 1, "create", "w h"},
+			{"edited file rewritten (newer), after w h, x", "x", 1, "change", "w h"},
+			{"edited file exists, same mtime, after w h", "w", 0, "none", "w h"},
+			{"edited file deleted meanwhile, after w h", "w", 0, "delete", "w h"},
 		};
 		int m;
 		for (s = 1; s < 5; s += 3)
@@ -462,6 +493,7 @@ int main(int argc, char **argv)
 					target = strstr(mx[m].cmd, " g") ? "g" : "f";
 					/* the outside world acts between the read and the write (phase 0) */
 					world_action = mx[m].world;
+					matrix_pre = mx[m].pre;
 					snprintf(cmdbuf, sizeof(cmdbuf), "%s", mx[m].cmd);
 					matrix_cmd = cmdbuf;
 					phase = 0;
